@@ -392,20 +392,26 @@ def rule_vi6(A: Analysis, rep):
         det = "commit_hash takes %s, dirty flag takes %s (expected commit.hash / commit.has_changes when a commit is given, None / False otherwise)" % (
             [(fmt_conj(c), v) for c, v in rv_h], [(fmt_conj(c), v) for c, v in rv_d])
     rep.check(ok, "VI6", "version carries the commit's hash and dirty flag", gen.node, "Version(ts, commit.hash, commit.has_changes)", det)
-    cnv = A.fn("task_types.run.RunExperiment._create_new_version")
+    cnv = A.fn("task_types.run.RunExperiment.create_new_version")   # its private helper, if any, is inlined
     calls = A.calls_in_func(cnv, "VersionIndex.generate_new_output_version")
     ctx = cnv.params[1]
     ok = len(calls) == 1 and norm(calls[0].func.value) == "%s.version_index" % ctx and \
         norm(A.kw(calls[0], "commit") or (calls[0].args[0] if calls[0].args else ast.Constant(0))) == "%s.current_commit" % ctx
-    st = _stmt_of(calls[0]) if calls else None
-    ok = ok and isinstance(st, ast.Assign) and norm(st.targets[0]) == "self._most_relevant_version"
+    g = A.cfg(cnv, "plain")
+    stores = [n for n in g.nodes if n.kind == "stmt" and isinstance(n.ast, ast.Assign) and norm(n.ast.targets[0]) == "self._most_relevant_version"]
+    call_txt = norm(calls[0]) if calls else "?"
+    # the field receives that call's result (directly or through a local)
+    ok = ok and len(stores) == 1 and {v for _c, v in A.rvalues(cnv, stores[0].ast.value, stores[0], g, keep=lambda a: False, calls=True)} == {call_txt}
     rep.check(ok, "VI6", "new version from HEAD of this invocation", cnv.node, "generate_new_output_version(commit=ctx.current_commit)",
-              "_create_new_version does not generate the version from ctx.current_commit")
-    cv = A.fn("task_types.run.RunExperiment.create_new_version")
-    g = A.cfg(cv, "plain")
+              "create_new_version does not generate the version from ctx.current_commit and store it as the task's version")
     r = [n for n in g.nodes if n.kind == "stmt" and isinstance(n.ast, ast.Return)]
-    cn = [n for n in g.nodes if n.kind == "stmt" and A.calls_in(n.ast, "RunExperiment._create_new_version")]
-    rep.check(len(r) == 1 and norm(r[0].ast.value) == "self._most_relevant_version" and bool(cn) and g.all_paths_pass(g.entry, r[0], cn, skip_labels=skip), "VI6", "create_new_version returns it", cv.node,
+    okr = len(r) == 1 and len(stores) == 1 and g.all_paths_pass(g.entry, r[0], stores, skip_labels=skip)
+    if okr:
+        rv = {v for _c, v in A.rvalues(cnv, r[0].ast.value, r[0], g, keep=lambda a: False, calls=True)}
+        okr = rv in ({"self._most_relevant_version"}, {call_txt})
+        # nothing may overwrite the field between the store and the return
+        okr = okr and not any(n is not stores[0] and n in g.reach([stores[0]], skip_labels=skip) for n in stores)
+    rep.check(okr, "VI6", "create_new_version returns it", cnv.node,
               "", "create_new_version does not return the freshly generated version")
     cc = A.fn("utils.git.Git.current_commit")
     cons = [c for c in walk_local(cc.node) if isinstance(c, ast.Call) and norm(c.func) in ("self.Commit", "Git.Commit")]
